@@ -82,7 +82,10 @@ func (m interruptHarnessMessage) message() {}
 
 // rearmHarnessMessage tells the harness that the listener of a non-interrupting
 // boundary event has left for the exception flow
-type rearmHarnessMessage struct{ listener int }
+type rearmHarnessMessage struct {
+	listener int
+	done     chan struct{}
+}
 
 func (m rearmHarnessMessage) message() {}
 
@@ -105,6 +108,8 @@ type harness struct {
 	// decided there, once)
 	seq    int
 	inside map[int]chan IAction
+	// gone is closed when run returns
+	gone chan struct{}
 }
 
 func (node *harness) ConsumeEvent(ev event.IEvent) (result event.ConsumptionResult, err error) {
@@ -158,6 +163,7 @@ func newHarness(wr *wiring, idGenerator id.IGenerator, constructor constructor) 
 		mch:      make(chan imessage, len(wr.incoming)*2+1),
 		activity: activity,
 		inside:   make(map[int]chan IAction),
+		gone:     make(chan struct{}),
 	}
 
 	err = node.eventEgress.RegisterEventConsumer(node)
@@ -218,10 +224,18 @@ func newHarness(wr *wiring, idGenerator id.IGenerator, constructor constructor) 
 						return action
 					}
 					// the activity goes on and so does the listening: once per event,
-					// not once per activation
+					// not once per activation; this token waits until its successor
+					// is in place (a flow is only started while another one lives,
+					// or the instance's flow count could be raised from zero under
+					// the completion monitor's wait)
+					done := make(chan struct{})
 					select {
-					case node.mch <- rearmHarnessMessage{listener: index}:
-					case <-ctx.Done():
+					case node.mch <- rearmHarnessMessage{listener: index, done: done}:
+						select {
+						case <-done:
+						case <-node.gone:
+						}
+					case <-node.gone:
 					}
 					return action
 				}
@@ -267,6 +281,7 @@ func (node *harness) disarm() {
 
 func (node *harness) run(ctx context.Context, sender tracing.ISenderHandle) {
 	defer sender.Done()
+	defer close(node.gone)
 
 	for {
 		select {
@@ -298,6 +313,7 @@ func (node *harness) run(ctx context.Context, sender tracing.ISenderHandle) {
 				if len(node.inside) > 0 {
 					node.listen(ctx, m.listener)
 				}
+				close(m.done)
 			case leaveHarnessMessage:
 				out, present := node.inside[m.seq]
 				if !present {
@@ -341,16 +357,18 @@ func (node *harness) NextAction(ctx context.Context, flow Flow) chan IAction {
 
 	response := make(chan chan IAction, 1)
 	// the run loop may be gone (cancelled): a token that arrives then must not wait
-	// for it; a nil channel leaves the token's flow to its own cancellation
+	// for it; a nil channel leaves the token's flow to its own cancellation. While
+	// the run loop lives the token waits for it: the boundary listeners are started
+	// on its behalf.
 	select {
 	case node.mch <- nextHarnessActionMessage{flow: flow, response: response}:
-	case <-ctx.Done():
+	case <-node.gone:
 		return nil
 	}
 	select {
 	case out := <-response:
 		return out
-	case <-ctx.Done():
+	case <-node.gone:
 		return nil
 	}
 }
